@@ -462,7 +462,7 @@ pub fn run(tier: Tier, seed: u64, replay: Option<&std::path::Path>) -> i32 {
         60,
         strategy,
         run_case,
-        "a recorder handler (returns {seen: frame id, topic, n: counter kept in $env}) registered in the zero or a registered context with resume head / tail / after a generated frame of the history, over a generated pre-history (frames of its own and of another context, topics that look like its own outputs and registration traffic, optionally a complete earlier lifecycle of the same name with outputs, optionally a second handler answering the same triggers), optional busy sleep per trigger and optional pulse; then bursts of trigger frames from 1..3 concurrent writer threads into its own and another context (ephemeral ones for tail), then a final frame it must answer. Oracle: its outputs carry n = 1,2,3,... without gap or repeat; the frames it was invoked for equal, in order, the frames of its context after the resume point minus its own outputs minus registration traffic of its name up to its own registration; exactly one threshold (none for tail), not before the last historical frame; pulses only when asked. Non-trivial = >= 3 burst frames while busy, or resume from history over an earlier lifecycle's outputs. Distinct by parameter hash.",
+        "a recorder handler (returns {seen: frame id, topic, n: counter kept in $env}) registered in the zero or a registered context with resume head / tail / after a generated frame of the history, over a generated pre-history (frames of its own and of another context, topics that look like its own outputs and registration traffic, optionally a complete earlier lifecycle of the same name with outputs, optionally a second handler answering the same triggers), optional busy sleep per trigger and optional pulse; then bursts of trigger frames from 1..3 concurrent writer threads into its own and another context (ephemeral ones for tail), in about one case in nine additionally 130..320 frames (all must be processed: far past the 100-slot delivery buffer) or 500..650 frames (the handler's own outputs queue up behind them, so the 1024+100 buffered frames may be overrun: then it must have processed a gap-free prefix and must announce the stop with <name>.unregistered carrying an error), then a final frame it must answer. Oracle: its outputs carry n = 1,2,3,... without gap or repeat; the frames it was invoked for equal, in order, the frames of its context after the resume point minus its own outputs minus registration traffic of its name up to its own registration; exactly one threshold (none for tail), not before the last historical frame; pulses only when asked. Non-trivial = >= 3 burst frames while busy, or resume from history over an earlier lifecycle's outputs. Distinct by parameter hash.",
         vec![
             "triggers are appended only after h.registered has become visible".to_string(),
             "ephemeral triggers are generated for tail handlers only (see the recorded C03 finding)".to_string(),
